@@ -1,5 +1,7 @@
 package tlv
 
+import "strings"
+
 type TlvNilNode struct{}
 
 var _ TlvNode = (*TlvNilNode)(nil)
@@ -34,6 +36,10 @@ func (node TlvNilNode) Encode() []byte {
 
 func (node TlvNilNode) stringWithIndent(_ int) string {
 	return ""
+}
+
+func (node TlvNilNode) writeString(sb *strings.Builder, indent int) {
+	sb.WriteString(node.stringWithIndent(indent))
 }
 
 func (node TlvNilNode) String() string {
